@@ -166,6 +166,14 @@ def run_one(prop, tier, seed):
         lines.append("  # %s prim=%s mode=%s kind=%s features=%s x%d" % (
             vs[0]["harness"], vs[0]["prim"], vs[0]["mode"], vs[0]["kind"], vs[0]["features"], len(vs)))
     stale = [k.line for k in known if k.hits == 0]
+    if os.environ.get("VERIF_REPO") is None:
+        try:       # per-tier record of entries that matched nothing (tools/prune_known.py intersects the tiers); ignored by git
+            sd = os.path.join(HERE, "replays", "_stale")
+            os.makedirs(sd, exist_ok=True)
+            with open(os.path.join(sd, "%s.%s.txt" % (prop, tier)), "w") as fh:
+                fh.write("\n".join(stale) + "\n")
+        except Exception:
+            pass
     # ---- evidence
     cov = dict(rep.cov)
     cov["samples"] = cov.get("samples", [])[:10]
